@@ -576,6 +576,12 @@ def _check_enum_name_for_reserved_words(enum, source_file_name, errors):
     )
 
 
+def _check_parameter_name_for_reserved_words(parameter, source_file_name, errors):
+    return _check_name_for_reserved_words(
+        parameter, source_file_name, errors, "a parameter name"
+    )
+
+
 def _check_type_name_for_reserved_words(type_definition, source_file_name, errors):
     return _check_name_for_reserved_words(
         type_definition, source_file_name, errors, "a type name"
@@ -800,6 +806,12 @@ def check_constraints(ir):
         ir,
         [ir_data.TypeDefinition],
         _check_type_name_for_reserved_words,
+        parameters={"errors": errors},
+    )
+    traverse_ir.fast_traverse_ir_top_down(
+        ir,
+        [ir_data.RuntimeParameter],
+        _check_parameter_name_for_reserved_words,
         parameters={"errors": errors},
     )
     traverse_ir.fast_traverse_ir_top_down(
